@@ -47,6 +47,14 @@ fn injected<T: serde::Serialize + serde::de::DeserializeOwned>(name: &str, bytes
     }
     None
 }
+/// the round trip judged on the bytes: what is read from a message's own bytes serialises to the same bytes again (a member that is
+/// present stays present, an absent one stays absent, every member value reads back as written)
+fn reser<T: serde::Serialize + serde::de::DeserializeOwned>(name: &str, bytes: &[u8]) -> Option<String> {
+    match ciborium::de::from_reader::<T, _>(bytes) {
+        Err(e) => Some(format!("{name}: its own bytes are rejected: {e:?}")),
+        Ok(t) => if ser(&t) != bytes { Some(format!("{name}: the message read from its own bytes serialises differently (a member changed or went missing on the way)")) } else { None },
+    }
+}
 fn ser<T: serde::Serialize>(v: &T) -> Vec<u8> { let mut b = Vec::new(); ciborium::ser::into_writer(v, &mut b).unwrap(); b }
 fn desc() -> PublicKeyCredentialDescriptor { PublicKeyCredentialDescriptor { ty: PublicKeyCredentialType::PublicKey, id: vec![1, 2, 3].into(), transports: None } }
 fn user() -> webauthn::PublicKeyCredentialUserEntity { webauthn::PublicKeyCredentialUserEntity { id: vec![9].into(), display_name: "d".into(), name: "n".into() } }
@@ -67,6 +75,13 @@ pub fn run(arg: &str) -> (bool, String) {
             // a member that is present but empty is present
             let empty = get_assertion::Request { allow_list: Some(vec![]), extensions: None, pin_auth: None, pin_protocol: None, rp_id: "example.com".into(), client_data_hash: vec![7; 32].into(), options: get_assertion::Options { rk: false, up: true, uv: false } };
             push(judge("getAssertion request, allowList present and empty", &ser(&empty), &[1, 2, 3, 5]));
+            // lists inside a member value: a descriptor whose transports list is present and empty, or holds only values this library does not know
+            let mut d_empty = desc(); d_empty.transports = Some(vec![]);
+            let mut d_known = desc(); d_known.transports = Some(vec![webauthn::AuthenticatorTransport::Usb, webauthn::AuthenticatorTransport::Internal]);
+            let lists = get_assertion::Request { allow_list: Some(vec![d_empty, desc(), d_known]), extensions: None, pin_auth: None, pin_protocol: None, rp_id: "example.com".into(), client_data_hash: vec![7; 32].into(), options: get_assertion::Options { rk: false, up: true, uv: false } };
+            for (n, b) in [("all members", &bf), ("required members only", &bm), ("allowList present and empty", &ser(&empty)), ("descriptors with empty / absent / filled transports", &ser(&lists))] {
+                push(reser::<get_assertion::Request>(&format!("getAssertion request, {n}"), b));
+            }
             match ciborium::de::from_reader::<get_assertion::Request, _>(&bf[..]) {
                 Ok(r) => if r.rp_id != full.rp_id || r.client_data_hash != full.client_data_hash || r.allow_list.as_ref().map(|l| l.len()) != Some(1) || r.pin_protocol != Some(1) || r.pin_auth != full.pin_auth || !r.options.uv { push(Some("getAssertion request: deserialising its own bytes yields a different message".into())) },
                 Err(e) => push(Some(format!("getAssertion request: its own bytes are rejected: {e:?}"))),
@@ -146,6 +161,7 @@ pub fn run(arg: &str) -> (bool, String) {
             push(injected::<get_info::Response>("getInfo response", &bf, &[1, 3]));
             let empty = get_info::Response { versions: vec![], extensions: Some(vec![]), aaguid: Aaguid::new_empty(), options: None, max_msg_size: None, pin_protocols: Some(vec![]), transports: Some(vec![]) };
             push(judge("getInfo response, lists present and empty", &ser(&empty), &[1, 2, 3, 6, 9]));
+            for (n, b) in [("all members", &bf), ("required members only", &bm), ("lists present and empty", &ser(&empty))] { push(reser::<get_info::Response>(&format!("getInfo response, {n}"), b)); }
             match ciborium::de::from_reader::<get_info::Response, _>(&bf[..]) { Ok(r) => if r != full { push(Some("getInfo response: deserialising its own bytes yields a different message".into())) }, Err(e) => push(Some(format!("getInfo response: its own bytes are rejected: {e:?}"))) }
             match ciborium::de::from_reader::<get_info::Response, _>(&bm[..]) { Ok(r) => if r != min { push(Some("getInfo response: deserialising its own bytes yields a different message".into())) }, Err(e) => push(Some(format!("getInfo response: its own bytes are rejected: {e:?}"))) }
         }
